@@ -309,6 +309,15 @@ def _gen_alleles(rng, gene, opts):
                 {"name": f"{num}.{sub:03d}", "kind": "normal", "vars": base + list(extra)}
             )
         num += 1
+    if opts.get("orphan_core"):
+        # an allele defined by two core variants none of which has an allele of its own: seeing only
+        # one of them leaves that variant without any usable carrier
+        used_now = {v for a in alleles for v in a["vars"]}
+        free = [f for f in func if f not in used_now and vs[f]["kind"] in ("snp", "mnp")]
+        free = [f for i, f in enumerate(free) if all(vs[f]["g"] != vs[x]["g"] for x in free[:i])]
+        if len(free) >= 2:
+            alleles.append({"name": f"{num}.001", "kind": "normal", "vars": free[:2]})
+            num += 1
     rnames = [r[0] for r in gene["regions"]]
     inner = rnames[1:-1]
     if opts.get("deletion"):
